@@ -1,6 +1,8 @@
 import GoCrypt.Props.C02Core
 import GoCrypt.Props.C02b
 import GoCrypt.Props.FlowModel
+import GoCrypt.Props.KdfIR2
+import GoCrypt.Props.DesIR
 
 /-!
 # C02 — a wrong password or a tampered hash never verifies
@@ -80,4 +82,17 @@ namespace GoCrypt.C02
 #print axioms GoCrypt.FlowModel.flowCheck_eq_model_nthash
 #print axioms GoCrypt.FlowModel.flowCheck_eq_model_argon2
 
+-- the Key the theorems above re-derive IS the current code: every scheme's Key after its guards, regenerated from the source, computes Scheme.<s>.derive (Props/KdfIR2.lean), with DES itself regenerated (Props/DesIR.lean)
+#print axioms GoCrypt.KdfIR2.desext_key_tail_ir_eq_derive
+#print axioms GoCrypt.KdfIR2.des_key_tail_ir_eq_derive
+#print axioms GoCrypt.KdfIR2.nthash_key_tail_ir_eq_derive
+#print axioms GoCrypt.KdfIR2.md5_key_tail_ir_eq_derive
+#print axioms GoCrypt.KdfIR2.sha256_key_tail_ir_eq_derive
+#print axioms GoCrypt.KdfIR2.sha512_key_tail_ir_eq_derive
+#print axioms GoCrypt.KdfIR2.sha1_key_tail_ir_eq_derive
+#print axioms GoCrypt.KdfIR2.sunmd5_key_tail_ir_eq_derive
+#print axioms GoCrypt.KdfIR2.bcrypt_key_tail_ir_eq_derive
+#print axioms GoCrypt.DesIRProps.encrypt_ir_eq_model
+#print axioms GoCrypt.DesIRProps.desext_key_tail_ir_eq_derive_full
+#print axioms GoCrypt.DesIRProps.des_key_tail_ir_eq_derive_full
 end GoCrypt.C02
